@@ -1,34 +1,30 @@
 #!/bin/bash
-# regress_seeds.sh: every kept seeded change must still be reported by the checks recorded as detecting it
-# (quick tier), and every harmless rewrite must leave all 20 checks quiet.  Applies each patch to /repo and
-# undoes it straight afterwards; nothing else may touch /repo while this runs.
+# regress_seeds.sh [P]: every kept seeded change must still be reported by the checks recorded as detecting it
+# (quick tier), and every harmless rewrite must leave all 20 checks quiet.  Each patch is applied to its own
+# scratch worktree (tools/try_seed_par.sh, VERIF_REPO); /repo itself is never touched.  P = parallel jobs (4).
 cd "$(dirname "$0")/.."
 ROOT=$(pwd)
-fail=0
+P=${1:-4}
+OUT=$ROOT/build/regress; rm -rf "$OUT"; mkdir -p "$OUT"
+ALL="C01 C02 C03 C04 C05 C06 C07 C08 C09 C10 C11 C12 C13 C14 C15 C16 C17 C18 C19 C20"
 for d in seeded/*/; do
   name=$(basename $d)
-  P=$ROOT/$d/patch.diff
-  [ -f "$P" ] || continue
-  if ! git -C /repo apply --check "$P" 2>/dev/null; then echo "SEED $name: patch no longer applies"; fail=1; continue; fi
-  git -C /repo apply "$P"
+  [ -f "$d/patch.diff" ] || continue
+  if [[ $name == harmless-* ]]; then props=$ALL
+  else props=$(python3 -c "import json;print(' '.join(json.load(open('$d/meta.json'))['confirmed']['detected_by']))"); fi
+  echo "$name $props"
+done | xargs -P "$P" -L 1 bash -c 'n=$0; bash '"$ROOT"'/tools/try_seed_par.sh '"$ROOT"'/seeded/$n/patch.diff "$@" > '"$OUT"'/$n.txt 2>&1'
+fail=0
+for f in "$OUT"/*.txt; do
+  name=$(basename $f .txt)
   if [[ $name == harmless-* ]]; then
-    props="C01 C02 C03 C04 C05 C06 C07 C08 C09 C10 C11 C12 C13 C14 C15 C16 C17 C18 C19 C20"
-    for p in $props; do
-      out=$(./check $p --tier quick 2>&1)
-      if echo "$out" | grep -q "^VIOLATION"; then echo "HARMLESS $name: $p ALARM: $(echo "$out" | grep -A1 '^VIOLATION' | tr '\n' ' ' | cut -c1-200)"; fail=1; fi
-    done
-    echo "HARMLESS $name done"
+    if grep -q "VIOLATION\|patch does not apply" $f; then echo "HARMLESS $name ALARM: $(grep -A1 VIOLATION $f | head -2 | tr '\n' ' ' | cut -c1-220)"; fail=1; else echo "HARMLESS $name quiet ($(grep -c 'OK property' $f) checks)"; fi
   else
-    props=$(python3 -c "import json;print(' '.join(json.load(open('$d/meta.json'))['confirmed']['detected_by']))")
-    for p in $props; do
-      out=$(./check $p --tier quick 2>&1)
-      if echo "$out" | grep -q "^VIOLATION property=$p"; then
-        echo "SEED $name: $p detects: $(echo "$out" | grep -A1 '^VIOLATION' | tail -1 | cut -c1-160)"
+    for p in $(python3 -c "import json;print(' '.join(json.load(open('seeded/$name/meta.json'))['confirmed']['detected_by']))"); do
+      if grep -q "^\[$p\] VIOLATION property=$p" $f; then echo "SEED $name: $p detects: $(grep -A1 "^\[$p\] VIOLATION" $f | tail -1 | cut -c1-150)"
       else echo "SEED $name: $p MISSED"; fail=1; fi
     done
   fi
-  git -C /repo apply -R "$P" 2>/dev/null; git -C /repo checkout -q -- .
 done
-git -C /repo status --short
 echo "regress done fail=$fail"
 exit $fail
